@@ -134,8 +134,76 @@ PROPS["C12"] = _hist(
     "Sampled two/three-actor schedules; in-place edits of notes/annotation dictionaries are part of the operation set.", "4 (C12)",
     probes=["new_actor", "copy_inside_context", "detached_object"])
 
+_POOL_COMPONENTS = {"real": REAL + ["cobra.util.ProcessPool wrapper (incl. its Windows branch)", "worker initialisers and task functions"],
+                    "stub": ["multiprocessing.Pool -> SimPool (per-worker address spaces by pickle round trip + module-global swapping, "
+                             "seeded chunk->worker assignment, virtual durations, completion order)",
+                             "solver verdict (wrapper around optlang Model.optimize that may override the status of a real solve)",
+                             "platform.system in process_pool", "Object.__hash__ (seeded)", "uuid.uuid1 in optlang (counter)",
+                             "numpy global RNG (owned; per simulated worker)", "time() in the samplers"]}
+_POOL_ASSUME = [
+    "worker processes share nothing, so executing each chunk at its dispatch event is faithful; arguments, results and the initializer's "
+    "arguments cross the process boundary by pickle round trip (spawn semantics; fork-inherited warm-start bases are not modelled)",
+    "worker death is not injected (CPython's Pool hangs on it and no property mentions it)",
+    "exact oracle: sim/reflp.py (rational simplex with independently checked certificates); a case it cannot certify is skipped and counted",
+    "loopless FVA is judged by inclusion invariants only (true loopless extremes need sign-pattern enumeration)",
+]
+
+
+def _pool(pid, level, quick, thorough, text, note, ref, probes=(), cfg=None, technique=None):
+    return {
+        "engine": "pool", "level": level, "quick_runs": quick, "thorough_runs": thorough,
+        "quick_wall_cap": 900, "thorough_wall_cap": 3300,
+        "run_cfg": dict({"run_timeout": 120, "max_fault_points": 40}, **(cfg or {})),
+        "rule": ("one evaluation = one simulated run: a generated network (2-7 metabolites, 4-12 reactions, gene rules), optionally aged by "
+                 "earlier optimisations and wrapped in a user context, then 1-3 analysis calls, each first with processes=1 and then as "
+                 "variants under the simulated process pool (processes 2-16, seeded chunk->worker assignment, virtual durations incl. "
+                 "stalled workers, completion order, permuted item lists, single-item calls) and - for fault enumeration - once per "
+                 "(solver call index x verdict). distinct = distinct digests of (calls, per-call solver-call counts, schedule decisions); "
+                 "non-trivial = at least one analysis returned a result (C14: and at least one call went through the pool)."),
+        "assumptions": _POOL_ASSUME, "components": _POOL_COMPONENTS, "probes": list(probes),
+        "level_text": text, "design_ref": ref, "level_note": note,
+        "technique": technique or "deterministic simulation: simulated process pool under a seeded scheduler + exact LP oracle",
+    }
+
+
+_POOL_PROBES = ["pool_created", "worker_ran_2+_chunks", "completion_order_differs_from_submission", "stalled_worker",
+                "chunk_tail_shorter", "call_used_pool", "aged_parent", "windows_init_file_branch"]
+PROPS["C05"] = _pool(
+    "C05", "exploration", 1200, 30000,
+    "FVA (plain, fraction_of_optimum, pfba_factor; reaction lists as objects/ids/subsets/permutations) on generated networks under "
+    "processes=1 and under every simulated pool schedule, judged against exact rational min/max of each net flux; loopless ranges by "
+    "inclusion invariants.",
+    "Input dimension sampled by small generated networks; what the technique adds is the schedule/process-count dimension.", "4 (C05)",
+    probes=_POOL_PROBES + ["fva_exact_checked", "blocked_exact_checked"])
+PROPS["C06"] = _pool(
+    "C06", "exploration", 1200, 30000,
+    "Single/double gene/reaction deletions and essential-gene/reaction searches under processes=1 and simulated pool schedules; rows must be "
+    "exactly the requested unordered combinations; growth/status judged against truth-table knock-out of the reference + exact LP.",
+    "FBA method judged exactly; linear MOMA/ROOM only by bookkeeping (row set, statuses) in the C13/C14 workloads.", "4 (C06)",
+    probes=_POOL_PROBES + ["deletion_exact_checked", "essential_exact_checked"])
+PROPS["C13"] = _pool(
+    "C13", "fault_enumeration", 250, 6000,
+    "For each sampled (model, analysis, arguments, serial|simulated-parallel, inside|outside a user context): one fault-free execution to "
+    "learn the number K of solver calls, then one execution per (call index k <= K) x (verdict in infeasible, unbounded, undefined, "
+    "time_limit, feasible) with exactly that solve's verdict overridden; the full model snapshot (content, list orders, objective, raw "
+    "GLPK problem, gene flags, context depth) must be identical before and after every call, however it ended, and fault-free calls "
+    "must repeat their uniquely defined results.",
+    "Complete over (call index x verdict kind) for each sampled case (capped at 40 call indices, sampled beyond, counted); sampled over "
+    "cases. 21 analyses.", "4 (C13)",
+    probes=_POOL_PROBES + ["unchanged_checked", "user_context_open", "user_context_still_intact", "compared_with_reference"],
+    technique="deterministic simulation with fault enumeration: every solver call index x every verdict injected, snapshot oracle")
+PROPS["C14"] = _pool(
+    "C14", "exploration", 1200, 30000,
+    "For each generated model: reference call with processes=1, then variants under the simulated pool (processes 2-16, chunk->worker "
+    "assignment, durations incl. stalled workers, completion order, permuted item lists, Configuration().processes, platform branch, aged "
+    "parent) and single-item calls; per item the values must agree with the reference, with the single-item call and with the exact oracle; "
+    "OptGP sampling must return the same frame for the same (seed, processes) under different schedules.",
+    "Sampled schedules; distinct interleavings (per-worker chunk sequences + completion order) are counted in the evidence.", "4 (C14)",
+    probes=_POOL_PROBES + ["compared_with_reference", "single_item_checked", "fva_exact_checked", "deletion_exact_checked"])
+
 ENGINES = {
     "hist": "seeded histories of public model operations on up to 3 live models vs. RefModel, raw-GLPK read-back, context/copy/restart operations",
+    "pool": "analyses under SimPool (simulated multiprocessing.Pool, seeded scheduler) and the solver-verdict injector; exact rational LP oracle",
     "dlist": "seeded DictList operation histories vs. plain-list reference (failing operations are the faults)",
 }
 
